@@ -563,6 +563,9 @@ class Glyph(BaseObject):
 
     def endSelfContourNotificationObservation(self, contour):
         if contour.dispatcher is None:
+            # a glyph outside of a font has no dispatcher,
+            # the contour must be detached from it all the same
+            contour.endSelfNotificationObservation()
             return
         contour.removeObserver(observer=self, notification="Contour.Changed")
         contour.endSelfNotificationObservation()
@@ -706,6 +709,9 @@ class Glyph(BaseObject):
 
     def endSelfComponentNotificationObservation(self, component):
         if component.dispatcher is None:
+            # a glyph outside of a font has no dispatcher,
+            # the component must be detached from it all the same
+            component.endSelfNotificationObservation()
             return
         component.removeObserver(observer=self, notification="Component.Changed")
         component.removeObserver(observer=self, notification="Component.BaseGlyphDataChanged")
@@ -853,6 +859,9 @@ class Glyph(BaseObject):
 
     def endSelfAnchorNotificationObservation(self, anchor):
         if anchor.dispatcher is None:
+            # a glyph outside of a font has no dispatcher,
+            # the anchor must be detached from it all the same
+            anchor.endSelfNotificationObservation()
             return
         anchor.removeObserver(observer=self, notification="Anchor.Changed")
         anchor.endSelfNotificationObservation()
@@ -963,6 +972,9 @@ class Glyph(BaseObject):
 
     def endSelfGuidelineNotificationObservation(self, guideline):
         if guideline.dispatcher is None:
+            # a glyph outside of a font has no dispatcher,
+            # the guideline must be detached from it all the same
+            guideline.endSelfNotificationObservation()
             return
         guideline.removeObserver(observer=self, notification="Guideline.Changed")
         guideline.endSelfNotificationObservation()
